@@ -42,6 +42,7 @@ type Program struct {
 	Setup   [][]Op // setup transactions
 	Target  []Op
 	SepVals bool // values in a separate segment
+	Sep     []bool // per store, overrides SepVals when set: stores of both placements in one transaction
 	API     int  // rotates which public call performs an update / a remove (see applyOps)
 }
 
@@ -55,16 +56,64 @@ func (p Program) Header() string {
 
 func storeName(i int) string { return fmt.Sprintf("st%d", i) }
 
+func (p Program) sep(i int) bool {
+	if p.Sep != nil {
+		return p.Sep[i]
+	}
+	return p.SepVals
+}
+
 // Gen makes a program. Shapes are chosen so that new stores, first roots, splits, node removals, fetched-only
 // nodes and multi-store commits are all common.
 func Gen(p *hx.Prng) Program {
-	switch p.Intn(6) {
+	switch p.Intn(7) {
 	case 0:
 		return genRemoveHeavy(p)
 	case 1:
 		return genReadWrite(p)
+	case 2:
+		return genPlacements(p)
 	}
 	return genMixed(p)
+}
+
+// genPlacements: one transaction over two or three stores of DIFFERENT value placements (values in the node /
+// in their own segment), opened in either order, writing to each of them.
+func genPlacements(p *hx.Prng) Program {
+	var pr Program
+	ns := 2 + p.Intn(2)
+	first := p.Chance(1, 2)
+	for i := 0; i < ns; i++ {
+		pr.Slot = append(pr.Slot, []int{2, 4}[p.Intn(2)])
+		pr.Exists = append(pr.Exists, p.Chance(5, 6))
+		pr.Sep = append(pr.Sep, (i%2 == 0) == first)
+	}
+	var ops []Op
+	for i := 0; i < ns; i++ {
+		if !pr.Exists[i] {
+			continue
+		}
+		n := 2 + p.Intn(6)
+		for j := 0; j < n; j++ {
+			ops = append(ops, Op{i, "add", j * 2, fmt.Sprintf("v%d", j)})
+		}
+	}
+	pr.Setup = [][]Op{ops}
+	// target: every store in index order (so the opening order is the placement order), then a few more anywhere
+	for i := 0; i < ns; i++ {
+		switch p.Intn(3) {
+		case 0:
+			pr.Target = append(pr.Target, Op{i, "add", 1 + 2*p.Intn(6), fmt.Sprintf("w%d", i)})
+		case 1:
+			pr.Target = append(pr.Target, Op{i, "upd", 2 * p.Intn(3), fmt.Sprintf("u%d", i)})
+		default:
+			pr.Target = append(pr.Target, Op{i, "add", 1 + 2*p.Intn(6), fmt.Sprintf("w%d", i)}, Op{i, "upd", 2 * p.Intn(3), fmt.Sprintf("u%d", i)})
+		}
+	}
+	for j := 0; j < p.Intn(4); j++ {
+		pr.Target = append(pr.Target, Op{p.Intn(ns), []string{"add", "upd", "rm", "get"}[p.Intn(4)], p.Intn(12), fmt.Sprintf("x%d", j)})
+	}
+	return pr
 }
 
 // genRemoveHeavy: a slot-2 tree filled in ascending order (many sparsely filled leaves), then a transaction that
@@ -272,7 +321,7 @@ func applyOps(ctx context.Context, t *txk.Txn, pr Program, ops []Op, e *txk.Env)
 		b, ok := bs[o.Store]
 		if !ok {
 			so := e.StoreOpts(storeName(o.Store), pr.Slot[o.Store], true)
-			if pr.SepVals {
+			if pr.sep(o.Store) {
 				so.IsValueDataInNodeSegment = false
 			}
 			var err error
@@ -336,7 +385,7 @@ func RunSetup(ctx context.Context, e *txk.Env, pr Program) error {
 	for i := range pr.Slot {
 		if pr.Exists[i] {
 			so := e.StoreOpts(storeName(i), pr.Slot[i], true)
-			if pr.SepVals {
+			if pr.sep(i) {
 				so.IsValueDataInNodeSegment = false
 			}
 			if _, err := txk.NewBtree[int, string](ctx, t, so); err != nil {
